@@ -726,3 +726,21 @@ Proof.
   intros c lv (c' & (BI & _ & _ & _ & live' & Ro) & _).
   vm_compute in BI. inversion BI; subst c'. vm_compute in Ro. discriminate.
 Qed.
+
+(* a free step never fails: from a state satisfying both invariants, freeing a live block is answered CDone - not
+   CSupplyFailed (the span model accepts the release InUse -> Cached), not CBadCall, not CRefusedByHeap - and both
+   invariants hold afterwards *)
+Theorem cstep_free_never_fails : forall psh mc st span off lv c, cinv st -> linv st lv -> live_block st lv span off c ->
+  exists st' ret, cstep psh mc st (CFreeSM span off) = CDone st' ret /\ cinv st' /\
+    linv st' (lv_del lv c (span, block_index c off)).
+Proof.
+  intros psh mc st span off lv c CI LI LB.
+  destruct (cstep_free psh mc st span off CI) as [NS PresC].
+  destruct (cstep_free_linv psh mc st span off lv c LI LB) as [NB PresL].
+  pose proof (cstep_free_not_refused psh mc st span off) as NR.
+  destruct (cstep psh mc st (CFreeSM span off)) as [st1 ret1| | |] eqn:S.
+  - exists st1, ret1. split; [reflexivity|]. split; [apply (PresC st1 ret1 eq_refl) | apply (PresL st1 ret1 eq_refl)].
+  - exfalso. apply NR. reflexivity.
+  - exfalso. apply NS. reflexivity.
+  - exfalso. apply NB. reflexivity.
+Qed.
